@@ -19,6 +19,16 @@
      add_years loc layout value y                    instant of that parsed time
                                                      after AddDate(y, 0, 0)
    The wall clock (now, in ns, and the current year) is an input of each line.
+
+   Metrics with keys (internal/metrics/metric.go: GetDatum, RemoveDatum,
+   ExpireDatum; vm.go: dload, del, expire): the store stays flat, a slot stands
+   for a scalar metric or for ONE label set of a metric with keys (the harness
+   computes the label tuple of a reference from the line and gives the same
+   tuple of the same metric the same slot for a whole case).  A slot is in the
+   store exactly when the label set is in Metric.LabelValues.  Label sets can
+   also leave the store without the VM (Store.Gc on expiry / limit calls
+   Metric.RemoveDatum): a history is a list of hstep, a line or a function
+   world -> world applied between two lines (ext_del is the removal).
    Definitions only; proofs are in Proofs/TimeRegProofs.v. *)
 From Coq Require Import List ZArith Bool.
 From V Require Export Base.Bytes Base.Int64 Lang.Memo.
@@ -52,7 +62,7 @@ Inductive event :=
 (* dimensioned metrics: a slot m stands for one (metric, label tuple); the
    harness computes the tuple from the line and assigns the slot *)
 | EDel (m : N)                       (* del m[..]: Metric.RemoveDatum; an absent label set is left absent *)
-| EGet (m : N)                       (* dload: Metric.GetDatum; creates the label set (datum 0, time 0) when absent *)
+| EGet (m : N)                       (* dload: Metric.GetDatum; creates the label set (datum 0, stamped now) when absent *)
 | EExpire (m : N).                   (* del m[..] after D: Metric.ExpireDatum; runtime error when absent *)
 
 (* an int datum: value and BaseDatum.Time (int64 ns) *)
@@ -85,9 +95,11 @@ Fixpoint store_del (m : N) (st : store) : store :=
   | [] => []
   | (m', c') :: r => if N.eqb m m' then r else (m', c') :: store_del m r
   end.
-(* Metric.GetDatum: find, or append a new zero datum (datum.NewInt: value 0, time 0) *)
-Definition store_touch (m : N) (st : store) : store :=
-  if store_mem m st then st else store_set m {| d_val := 0; d_time := 0 |} st.
+(* Metric.GetDatum: find, or append a new datum.  datum.NewInt is
+   MakeInt(0, zero time): value 0, stamped with the WALL CLOCK (stamp of a zero
+   time.Time), not with the time register *)
+Definition store_touch (now : Z) (m : N) (st : store) : store :=
+  if store_mem m st then st else store_set m {| d_val := 0; d_time := now |} st.
 
 (* what a line can change outside the VM: the metrics and the program's
    runtime-error counter (prog_runtime_errors_total) *)
@@ -257,7 +269,7 @@ Section Model.
       | EStop => {| s_th := s_th s; s_w := s_w s;
                     s_vm := {| v_memo := v_memo (s_vm s); v_term := true |} |}
       | EDel m => set_store (store_del m (w_store (s_w s))) s
-      | EGet m => set_store (store_touch m (w_store (s_w s))) s
+      | EGet m => set_store (store_touch now m (w_store (s_w s))) s
       | EExpire m =>
           if store_mem m (w_store (s_w s)) then s   (* LabelValue.Expiry is not part of this world *)
           else raise s                              (* "No datum for given labelvalues" *)
